@@ -1,7 +1,7 @@
 """Hand-written models of the std functions the suiron MIR calls (PROTOTYPE)."""
 import re, math
 import z3
-from mirsym import (model, Machine, Cell, Agg, Ptr, SliceRef, VecV, ArrV, RStr, StrRef, RcV, RefCellV, BorrowV,
+from .machine import (model, Machine, Cell, Agg, Ptr, SliceRef, VecV, ArrV, RStr, StrRef, RcV, RefCellV, BorrowV,
                     MapV, IterV, FmtArg, FmtArgs, Formatter, Closure, FnItem, RustPanic, Unsupported, Sym,
                     UNIT, UNINIT, copy_val, seq_cells, type_head, to_z3, wrap_int, INT_BITS)
 
